@@ -139,6 +139,20 @@ CHECKS = {
             'order, links in both directions) must be equal and serialising the reloaded model must be a fixed point.',
             'Trusted: mc/refs/sqlmodel.py snapshot. Domain restrictions are listed in the evidence assumptions.',
             'DESIGN.md section 5, C01'),
+    'C03': ('enumerator',
+            'bounded exhaustive enumeration of populations, statement permutations, input partitions and file/dir/zip spreads on the real loader, against the relational join of the reference',
+            'Join: for ten schemas (integer / id / two-attribute (string, id) / boolean / real keys, a referential attribute shared '
+            'by two associations, reflexive, association class, reflexive association class, phrased non-reflexive) every '
+            'population of up to 2 referred and 2 (thorough 3) referring rows over key alphabets with nulls in every form (id 0, '
+            'empty string, column absent), duplicates and dangling values, in 2 (4) insert styles (positional/named, reversed '
+            'column order, uuid/integer ids, TRUE/1 booleans), is loaded and navigation in both directions plus referential reads '
+            'compared with the join. Order: for every selected input of <= 6 (7) statements all permutations, all contiguous '
+            'splits into <= 3 input() calls in every call order; spreads of the statements over a two-level directory tree, the '
+            'files one by one and a zip archive with a decoy member through bridgepoint ModelLoader.filename_input. API route: the '
+            'same rows through MetaModel.new with referential values (referred first) and clone().',
+            'Trusted: relmodel.Ref.load (the definition of loading). Two recorded findings (F-C03a/b) concern the API route on '
+            'associations with differing phrases; they cannot be repaired without failing six repository tests.',
+            'DESIGN.md section 5, C03; section 6'),
 }
 
 NOT_YET = 'check not built yet in this revision (planned, see DESIGN.md section 5); not claimed until it exists'
